@@ -218,6 +218,39 @@ def coq_property(pid, timeout=900):
     return res
 
 
+def theorem_statements(pid):
+    """{name: sha256 of the whitespace-normalised statement} for every Theorem/Corollary of
+    Properties/<pid>.v, plus the list of theorems whose proof is not a bare `exact`."""
+    src = os.path.join(COQ, "Properties", pid + ".v")
+    text = strip_coq_comments(open(src, encoding="utf-8").read()) if os.path.exists(src) else ""
+    stm, inline = {}, []
+    for m in re.finditer(r"^\s*(?:Theorem|Corollary)\s+(\w+)(.*?)\bProof\.(.*?)\b(Qed|Defined)\.", text, re.M | re.S):
+        name, statement, body = m.group(1), m.group(2), m.group(3)
+        stm[name] = hashlib.sha256(" ".join(statement.split()).encode()).hexdigest()[:16]
+        sentences = [x for x in re.split(r"\.(?:\s+|$)", body.strip()) if x.strip()]
+        if len(sentences) != 1 or not sentences[0].lstrip().startswith("exact"):
+            inline.append(name)
+    return stm, inline
+
+
+def theorem_lock_problems(pid):
+    """props/<pid>/theorems.lock.json pins the names and statements of the property theorems
+    (written deliberately by meta/lock_theorems.py): a theorem that disappears or whose statement
+    changes is an unchecked obligation, not a silently smaller proof."""
+    lock = os.path.join(VERIF, "props", pid, "theorems.lock.json")
+    stm, inline = theorem_statements(pid)
+    probs = ["theorem %s is proved inline in Properties/%s.v (must be `exact <lemma>`)" % (n, pid) for n in inline]
+    if not os.path.exists(lock):
+        return probs, False
+    pinned = json.load(open(lock)).get("theorems", {})
+    for n, h in pinned.items():
+        if n not in stm:
+            probs.append("pinned theorem %s is missing from Properties/%s.v" % (n, pid))
+        elif stm[n] != h:
+            probs.append("statement of pinned theorem %s changed (re-lock deliberately with meta/lock_theorems.py)" % n)
+    return probs, True
+
+
 def proof_status(pid, extra_targets=()):
     """Build (the property file's closure + extra targets such as Cxx/Extract.v) + gate +
     property file. Returns dict with obligations/discharged/axioms/problems."""
@@ -234,6 +267,8 @@ def proof_status(pid, extra_targets=()):
     pr = coq_property(pid) if ok else {"ok": False, "theorems": [], "assumptions": {}, "log": ""}
     if ok and not pr["ok"]:
         problems.append("Properties/%s.v does not check: %s" % (pid, pr["log"][-1500:]))
+    lock_probs, locked = theorem_lock_problems(pid)
+    problems += lock_probs
     obligations = len(pr["theorems"])
     discharged = 0
     axioms = set()
@@ -251,7 +286,7 @@ def proof_status(pid, extra_targets=()):
                 problems.append("theorem %s depends on non-stdlib axioms %s" % (th, ax))
     return {"obligations": obligations, "discharged": discharged, "theorems": pr["theorems"],
             "undischarged": undischarged, "axioms": sorted(axioms), "problems": problems,
-            "closure": closure,
+            "closure": closure, "theorems_pinned": locked,
             "wall_s": time.time() - t0,
             "coq_hash": coq_tree_hash([os.path.join(COQ, f) for f in closure])}
 
@@ -390,7 +425,7 @@ class Ctx:
         self.coverage.update({
             "obligations": status["obligations"], "discharged": status["discharged"],
             "theorems": status["theorems"], "axioms_reported": status["axioms"],
-            "coq_files": status.get("closure", []),
+            "coq_files": status.get("closure", []), "theorems_pinned": status.get("theorems_pinned", False),
             "coq_tree_hash": status["coq_hash"],
             "checker_cmd": "make -C coq (coq_makefile, full .vo build) && coqc -R coq Acme coq/Properties/%s.v (Print Assumptions parsed)" % self.pid,
         })
@@ -419,9 +454,10 @@ class Ctx:
             "wall_s": round(time.time() - self.t0, 2), "violations": len(self.violations),
             "known_findings_hit": sorted(self.known_hits),
         }
-        os.makedirs(EVID, exist_ok=True)
-        with open(os.path.join(EVID, self.pid + ".json"), "w") as f:
-            json.dump(ev, f, indent=1, sort_keys=True)
+        if not self.replay:   # a replay run re-executes one case; it must not overwrite the evidence
+            os.makedirs(EVID, exist_ok=True)
+            with open(os.path.join(EVID, self.pid + ".json"), "w") as f:
+                json.dump(ev, f, indent=1, sort_keys=True)
         shutil.rmtree(self.scratch, ignore_errors=True)
         print("%s %s tier=%s seed=%s wall=%.1fs violations=%d known=%d" % (
             "FAIL" if self.violations else "PASS", self.pid, self.tier, self.seed,
